@@ -100,6 +100,22 @@ CLAIMS = {
              "over received bytes) and f440141 (segmentation bit kept). Known finding F09b: P/F attribute of SNRM/UA/DISC/RR is not on the wire.",
         technique="Coq proof (layout, acceptance soundness) + correspondence + exhaustive single-fault enumeration",
         design="4/C09"),
+    "C03": dict(
+        text="Coq theorems (axiom-free) over the generated transition table and the modelled control flow of send / "
+             "next_event (pre-established guards, reject -> reset, HLS start, the HLS_DONE tail): over the property's "
+             "alphabet (6 request kinds sent, 15 response kinds received), every state, every attribute combination and "
+             "both association modes, whatever is accepted is a legal step of the client procedure with the prescribed "
+             "post-state (must/may reference automaton of DESIGN appendix A), every required step is accepted, ACSE APDUs "
+             "on a pre-established association are refused in both directions in every state with the pre-established "
+             "error; for histories of any length the state stays inside the declared states and a pre-established "
+             "association never leaves {ready, awaiting-*, should-ack} (induction over the operation list; the finite "
+             "step relation is enumerated completely in the kernel). Tie: table regenerated from the source; the graph of "
+             "the real DlmsConnection is exhausted for plain, LLS, HLS-GMAC/ciphered and pre-established configurations.",
+        note="Trusted: Coq kernel + VM, translator, extraction + driver, Python harness (connections are forced into a "
+             "state by assigning the state attribute). Opposite-direction events (a client 'receiving' a request kind) are "
+             "outside the property's alphabet; the table itself has no direction.",
+        technique="Coq proof (complete kernel enumeration of the step relation + induction over histories) + translator + exhaustive graph correspondence",
+        design="4/C03"),
     "C15": dict(
         text="Coq theorems (axiom-free) for buffers of any number of rows and columns, any null pattern, clock columns "
              "anywhere: one row per entry, one cell per capture object, every cell bound to the index of its own column "
